@@ -78,7 +78,7 @@ Proof. exact ready_entry_once. Qed.
 Print Assumptions C20_entry_once_per_ready.
 
 Theorem C20_applied_monotone : forall d c lg s op s' o,
-  rstep d c lg s op = Some (s', o) -> op <> OCrash -> applied (mem s) <= applied (mem s').
+  rstep d c lg s op = Some (s', o) -> (forall bs, op <> OCrash bs) -> applied (mem s) <= applied (mem s').
 Proof. exact applied_mono. Qed.
 Print Assumptions C20_applied_monotone.
 
@@ -92,23 +92,24 @@ Print Assumptions C20_replay_skipped.
 (** C20_none_skipped: whenever the replica has applied the log up to index i it has handed over (or found
     executed) every block of the canonical chain of the first i entries.
     Hypotheses: [safe] = repaired restart, or the code as it is on a log without entries from the
-    future; no snapshot ahead of execution (the code as it is after the [fix:] commit). *)
+    future; [repaired_rest] = no local snapshot ahead of execution and a start-up that fetches what a
+    received snapshot still lacks (the code as it is after the [fix:] commits). *)
 Theorem C20_none_skipped : forall d c lg ops tr,
-  safe d c lg -> d_snap_unexecuted d = false ->
+  safe d c lg -> repaired_rest d ->
   rrun d c lg (init_sys d c) ops = Some tr -> none_skipped (c_init c) lg tr.
 Proof. exact none_skipped_all. Qed.
 Print Assumptions C20_none_skipped.
 
 (** every block handed over is the block of the log's canonical chain at its height ... *)
 Theorem C20_canonical : forall d c lg ops tr,
-  safe d c lg -> d_snap_unexecuted d = false ->
+  safe d c lg -> repaired_rest d ->
   rrun d c lg (init_sys d c) ops = Some tr -> canonical (c_init c) lg tr.
 Proof. exact canonical_all. Qed.
 Print Assumptions C20_canonical.
 
 (** ... the executed blocks are a prefix of that chain (nothing skipped, nothing twice, across crashes) ... *)
 Theorem C20_executed_prefix : forall d c lg ops tr,
-  safe d c lg -> d_snap_unexecuted d = false ->
+  safe d c lg -> repaired_rest d ->
   rrun d c lg (init_sys d c) ops = Some tr ->
   is_prefix (executed (shadow_init (c_init c)) ops tr) (canon_blocks (c_init c) lg).
 Proof. exact executed_prefix. Qed.
@@ -118,7 +119,7 @@ Print Assumptions C20_executed_prefix.
     same log from the same height hand over identical (height, txs).  The shared log is the
     hypothesis on etcd-raft (log matching): both runs are over the same [lg]. *)
 Theorem C20_same_content : forall d c1 c2 lg ops1 ops2 tr1 tr2,
-  c_init c1 = c_init c2 -> safe d c1 lg -> d_snap_unexecuted d = false ->
+  c_init c1 = c_init c2 -> safe d c1 lg -> repaired_rest d ->
   rrun d c1 lg (init_sys d c1) ops1 = Some tr1 -> rrun d c2 lg (init_sys d c2) ops2 = Some tr2 ->
   forall a b, In a (all_events tr1) -> In b (all_events tr2) -> fst a = fst b -> a = b.
 Proof. exact same_content. Qed.
@@ -190,7 +191,7 @@ Definition w_cfg : rcfg := {| c_id := 1; c_snap := 1000; c_init := 1 |}.
 Definition w_log : rlog := [EBatch 2 [100]; EBatch 4 [300]; EBatch 3 [101]; EBatch 4 [102]].
 (** deliver 1..3, execute both blocks, crash before any report, replay *)
 Definition w_ops : list rop :=
-  [OAppend; OAppend; OAppend; OAppend; OReady 1 3 3 (Some 2); OExec; OExec; OCrash; OReady 1 4 4 None].
+  [OAppend; OAppend; OAppend; OAppend; OReady 1 3 3 (Some 2); OExec; OExec; OCrash []; OReady 1 4 4 None].
 
 (** the faithful restart hands over the stale batch as block 4: other replicas get [102] *)
 Theorem C20_restart_height_only_refuted :
@@ -216,8 +217,8 @@ Qed.
     stale duplicates, a crash with the report lagging, replay *)
 Definition w_log2 : rlog := [EBatch 2 [100]; EBatch 2 [200]; EBatch 3 [101]; EEmpty; EBatch 3 [300]; EBatch 4 [102]].
 Definition w_ops2 : list rop :=
-  [OAppend; OAppend; OAppend; OAppend; OAppend; OAppend; OReady 1 3 5 (Some 1); OExec; OReport 2; OExec; OCrash;
-   OReady 1 6 6 (Some 1); OPropose 2; OExec; OReport 4; OCrash; OReady 1 6 6 None].
+  [OAppend; OAppend; OAppend; OAppend; OAppend; OAppend; OReady 1 3 5 (Some 1); OExec; OReport 2; OExec; OCrash [];
+   OReady 1 6 6 (Some 1); OPropose 2; OExec; OReport 4; OCrash []; OReady 1 6 6 None].
 Example C20_example_current :
   exists tr, rrun only_restart w_cfg w_log2 (init_sys only_restart w_cfg) w_ops2 = Some tr
              /\ raft_prop_b (c_init w_cfg) (c_id w_cfg) w_log2 w_ops2 tr = 0
@@ -232,18 +233,38 @@ Qed.
 Definition w_cfg_s : rcfg := {| c_id := 1; c_snap := 2; c_init := 1 |}.
 Definition w_log_s : rlog := [EBatch 2 [100]; EBatch 3 [101]; EBatch 4 [102]; EBatch 5 [103]].
 Definition w_ops_s : list rop :=
-  [OAppend; OAppend; OAppend; OAppend; OReady 1 3 3 None; OExec; OCrash; OReady 4 4 4 None].
+  [OAppend; OAppend; OAppend; OAppend; OReady 1 3 3 None; OExec; OCrash []; OReady 4 4 4 None].
+(** flags of the code before both [fix:] commits: snapshot without the guard, start-up without the fetch *)
+Definition snap_old : Defects := mkD false true false true.
 Theorem C20_snap_unexecuted_refuted :
-  exists tr, rrun only_snap w_cfg_s w_log_s (init_sys only_snap w_cfg_s) w_ops_s = Some tr
+  exists tr, rrun snap_old w_cfg_s w_log_s (init_sys snap_old w_cfg_s) w_ops_s = Some tr
              /\ none_skipped_b (c_init w_cfg_s) w_log_s tr = false.
 Proof. eexists. split; vm_compute; reflexivity. Qed.
 Print Assumptions C20_snap_unexecuted_refuted.
 
 Example C20_example_snap_fixed :
   exists tr, rrun cfg_fixed w_cfg_s w_log_s (init_sys cfg_fixed w_cfg_s)
-               [OAppend; OAppend; OAppend; OAppend; OReady 1 3 3 None; OExec; OCrash; OReady 1 4 4 None] = Some tr
+               [OAppend; OAppend; OAppend; OAppend; OReady 1 3 3 None; OExec; OCrash []; OReady 1 4 4 None] = Some tr
              /\ none_skipped_b (c_init w_cfg_s) w_log_s tr = true
              /\ all_events tr = [(2, [100]); (3, [101]); (4, [102]); (3, [101]); (4, [102]); (5, [103])].
+Proof. eexists. split; [vm_compute; reflexivity|]. split; vm_compute; reflexivity. Qed.
+
+(** a snapshot received from the leader, a crash before its blocks are executed: without the start-up
+    fetch (the defect repaired by the [fix:] commit) blocks 4 and 5 are lost *)
+Definition w_log_i : rlog := [EBatch 2 [100]; EBatch 3 [101]; EBatch 4 [102]; EBatch 5 [103]; EBatch 6 [104]].
+Definition w_ops_i (resync : list (N * blk)) : list rop :=
+  [OAppend; OAppend; OAppend; OAppend; OAppend; OReady 1 1 1 (Some 2);
+   OSnapIn 4 [(2, (3, [101])); (3, (4, [102])); (4, (5, [103]))]; OExec; OExec; OCrash resync; OReady 5 5 5 None].
+Theorem C20_snapin_lost_refuted :
+  exists tr, rrun only_snapin w_cfg w_log_i (init_sys only_snapin w_cfg) (w_ops_i []) = Some tr
+             /\ none_skipped_b (c_init w_cfg) w_log_i tr = false.
+Proof. eexists. split; vm_compute; reflexivity. Qed.
+Print Assumptions C20_snapin_lost_refuted.
+
+Example C20_example_snapin_fixed :
+  exists tr, rrun cfg_fixed w_cfg w_log_i (init_sys cfg_fixed w_cfg) (w_ops_i [(3, (4, [102])); (4, (5, [103]))]) = Some tr
+             /\ raft_prop_b (c_init w_cfg) (c_id w_cfg) w_log_i (w_ops_i [(3, (4, [102])); (4, (5, [103]))]) tr = 0
+             /\ all_events tr = [(2, [100]); (3, [101]); (4, [102]); (5, [103]); (4, [102]); (5, [103]); (6, [104])].
 Proof. eexists. split; [vm_compute; reflexivity|]. split; vm_compute; reflexivity. Qed.
 
 (** two transactions in one log, no hypothesis on the log: tx_once needs [log_tx_disjoint] *)
